@@ -80,4 +80,18 @@ CHECKS = {
     text=("Histories of add_resource/add_window(named/anonymous) with prefix-rich names (strings and integers) on map trees where address space can never be the "
           "reason for refusal; acceptance must equal the model's verdict in both directions, refusals must change nothing, final paths pairwise distinct."),
     note="Non-name refusal causes are excluded by construction or tracked (frozen parent, duplicate window)."),
+ "C06": dict(
+    design_ref="DESIGN.md section 4, C06",
+    technique="property-based testing: exhaustive per-address combinational sweep of generated decoders vs. windows() oracle; tree-vs-flat-multiplexer differential with lock-step reference model",
+    text=("Part A sweeps every address x strobe combination of generated decoders with testbench-played subordinates and checks one-hot routing, address/data "
+          "transparency and read-data return against the windows the memory map reports. Part B simulates generated decoder trees over multiplexers side by side with "
+          "one flat multiplexer built from root.memory_map.all_resources() under the same conforming stimulus."),
+    note="Subordinates are protocol-abiding (zero r_data unless read in the previous cycle). Trusts the simulator and vlib/csrmodel.py."),
+ "C07": dict(
+    design_ref="DESIGN.md section 4, C07",
+    technique="property-based testing: exhaustive per-address combinational sweep of generated Wishbone decoders with random request/response vectors vs. windows() oracle",
+    text=("Generated decoder geometries/feature subsets/window sets (dense equal-granularity and sparse >= 1 word; shuffled add order) are swept over every address with "
+          "random request vectors; selection, request fan-out (adr offset, sel, we, stb, dat_w, lock/cti/bte or defaults) and response fan-in (ack/err/rty/stall/dat_r of "
+          "the selected subordinate only) are checked. Two open known findings (K1, K2) are probed by pinned cases and reported as KNOWN-FINDING."),
+    note="Unselected subordinates keep response lines low (Wishbone rule) but drive arbitrary dat_r. Sparse windows: selection only."),
 }
